@@ -19,7 +19,8 @@ RULE = ("strings: all products over the 17-symbol alphabet a 1 SP NL TAB \\NL \"
         "non-trivial = the lexer produced at least one token; distinct = distinct source text")
 ASSUMPTIONS = ["normalise()/_expand_comment (reference normaliser) define the documented normalisations",
                "the raw cursor before/after get_next_token delimits what a token consumed"]
-KINDS = {"NO_PROGRESS", "OVERLAP", "DROPPED", "TEXT", "TABEXP", "STOPPED_EARLY", "PHANTOM_BADLEX", "NOSPELL", "NOSTART"}
+KINDS = {"NO_PROGRESS", "OVERLAP", "DROPPED", "TEXT", "TABEXP", "STOPPED_EARLY", "PHANTOM_BADLEX", "NOSPELL", "NOSTART",
+         "SPLICE_AS_NEWLINE"}
 WORKER_TIMEOUT = {"quick": 600, "thorough": 3600}
 
 
@@ -33,6 +34,11 @@ def plan(tier, seed):
     specs += [{"mode": "product_sample", "alpha": a, "len": L, "seed": seed, "shard": i, "n": 4000 if tier == "quick" else 60000}
               for i, (a, L) in enumerate([("pos", 7), ("pos", 9), ("pos", 12), ("pos", 16), ("total", 5), ("total", 7),
                                           ("total", 10), ("total", 14)])]
+    # very long runs of one unit (splices, quotes, stray characters ...) at one place
+    specs += [{"mode": "runs", "shard": i, "nshards": 4} for i in range(4)]
+    # every keyword-like identifier, alone and between tokens
+    specs += [{"mode": "list", "items": [w for w in __import__("nv.gen.lex", fromlist=["x"]).NEAR_KEYWORDS] +
+               ["a %s b;" % w for w in __import__("nv.gen.lex", fromlist=["x"]).NEAR_KEYWORDS]}]
     # containers (comments, literals with every prefix, directive bodies; closed and left open) x payload sequences
     specs += [{"mode": "grammar", "seed": seed, "shard": i, "nshards": 8, "maxlen": 2 if tier == "quick" else 3,
                "sample": 1500 if tier == "quick" else 40000} for i in range(8)]
